@@ -152,7 +152,7 @@ def extract_model(loader_cls, mid):
             'rejects': [], 'hasrecog': False, 'recog': ['auto'],
             'hassav': False, 'sav': ['none'], 'hasswe': False,
             'swe': ['none'], 'initraises': False, 'raisesif': [], 'hasydef': False,
-            'ydefaults': [], 'strmixin': False,
+            'ydefaults': [], 'strmixin': False, 'extraann': 'odict',
             'yattrs': []})
     dt = abstype(loader_cls.document_type, names)
     model = {'id': mid, 'classes': out, 'reg': [c.__name__ for c in classes],
